@@ -101,6 +101,10 @@ Fixpoint count_nat (x : nat) (l : list nat) : nat :=
 Definition in_flight (o : obs) : list nat :=
   filter (fun i => count_nat i (map st_done (ob_steps o)) <? count_nat i (contacted o)) (nodup Nat.eq_dec (contacted o)).
 
+(* every upload that was started has returned *)
+Definition all_returned_b (o : obs) : bool :=
+  forallb (fun i => count_nat i (contacted o) <=? count_nat i (map st_done (ob_steps o))) (contacted o).
+
 (* the locator is the body of a counted 200 answer (the empty string if there was none) *)
 Definition loc_ok_b (l : string) (ss : list step) : bool :=
   if existsb is200 (outs ss) then existsb (fun o => is200 o && String.eqb (o_body o) l) (outs ss)
@@ -157,7 +161,7 @@ Definition spec_b (c : case) : bool :=
   | Ok l n => negb (oversize i) && (i_want i <=? n) && (n <=? total_stored ss) && loc_ok_b l ss
   | Insufficient l n =>
       negb (oversize i) && (n <? i_want i) && (n =? total_stored ss) && loc_ok_b l ss &&
-      match in_flight o with [] => true | _ => false end &&
+      all_returned_b o &&
       exhausted_b i ss && (n_accepting i <? i_want i)
   | Oversize => oversize i && match contacted o with [] => true | _ => false end &&
                 match ob_reqs o with [] => true | _ => false end
@@ -186,8 +190,8 @@ Fixpoint failing_from (i : N) (cs : list case) : list (N * N) :=
 Definition failing (cs : list case) : list (N * N) := failing_from 0%N cs.
 
 (* constructors with short names for the generated files *)
-Definition K (u h : string) (p : N) (ssl : bool) (t : string) (ro : bool) : ksvc :=
-  {| k_uuid := u; k_host := h; k_port := p; k_ssl := ssl; k_type := t; k_ro := ro |}.
+Definition K (h : string) (p : N) (ssl : bool) (t : string) (ro : bool) : ksvc :=
+  {| k_host := h; k_port := p; k_ssl := ssl; k_type := t; k_ro := ro |}.
 Definition St (r : nat) (started : list nat) (d : nat) (o : outcome) : step :=
   {| st_round := r; st_started := started; st_done := d; st_out := o |}.
 Definition Q (s : nat) (p d : string) (n : N) (b : string) : oreq :=
